@@ -13,14 +13,15 @@ Section Proofs.
   Variable blacklisted in_pip in_stdlib : string -> bool.
   Variable follow_local follow_pip follow_stdlib : bool.
   Variable imports_in : string -> list (string * string).
+  Variable has_source : string -> bool.
 
   Notation permitted := (permitted blacklisted in_pip in_stdlib follow_pip follow_stdlib).
   Notation resolve_import := (resolve_import module_of blacklisted in_pip in_stdlib follow_local follow_pip follow_stdlib).
-  Notation bfs := (bfs module_of origin_of blacklisted in_pip in_stdlib follow_pip follow_stdlib imports_in).
-  Notation analysed := (analysed module_of origin_of blacklisted in_pip in_stdlib follow_local follow_pip follow_stdlib imports_in).
+  Notation bfs := (bfs module_of origin_of blacklisted in_pip in_stdlib follow_pip follow_stdlib imports_in has_source).
+  Notation analysed := (analysed module_of origin_of blacklisted in_pip in_stdlib follow_local follow_pip follow_stdlib imports_in has_source).
 
   (* ================= the BFS ================= *)
-  Definition good (x : string * string) : Prop := permitted (fst x) = true /\ origin_of (fst x) = Some (snd x).
+  Definition good (x : string * string) : Prop := permitted (fst x) = true /\ origin_of (fst x) = Some (snd x) /\ has_source (snd x) = true.
 
   Lemma bfs_incl_acc fuel : forall queue seen acc res,
     bfs fuel queue seen acc = Some res -> forall x, In x acc -> In x res.
@@ -33,6 +34,7 @@ Section Proofs.
       destruct (origin_of mn) as [o|]; [|eapply IH; eauto].
       destruct (mem o seen); [eapply IH; eauto|].
       destruct (permitted mn); simpl in H; [|eapply IH; eauto].
+      destruct (has_source o); simpl in H; [|eapply IH; eauto].
       eapply IH; [exact H|]. right. exact Hx.
   Qed.
 
@@ -48,8 +50,9 @@ Section Proofs.
       destruct (origin_of mn) as [o|] eqn:Eo; [|eapply IH; eauto].
       destruct (mem o seen); [eapply IH; eauto|].
       destruct (permitted mn) eqn:Ep; simpl in H; [|eapply IH; eauto].
+      destruct (has_source o) eqn:Eh; simpl in H; [|eapply IH; eauto].
       eapply IH; [exact H| |exact Hx].
-      intros y [<-|Hy]; [split; assumption|apply Hacc; exact Hy].
+      intros y [<-|Hy]; [repeat split; assumption|apply Hacc; exact Hy].
   Qed.
 
   (* each origin at most once *)
@@ -64,6 +67,7 @@ Section Proofs.
       destruct (origin_of mn) as [o|]; [|eapply IH; eauto].
       destruct (mem o seen) eqn:Es; [eapply IH; eauto|].
       destruct (permitted mn); simpl in H; [|eapply IH; eauto].
+      destruct (has_source o); simpl in H; [|eapply IH; eauto].
       eapply IH; [exact H|simpl; f_equal; exact Hs|].
       simpl. constructor; [|exact Hnd].
       intros Hin. rewrite <- Hs in Hin. apply mem_true_iff in Hin. congruence.
@@ -76,14 +80,14 @@ Section Proofs.
     | None => True
     | Some mn => match origin_of mn with
                  | None => True
-                 | Some o => permitted mn = false \/ In o S
+                 | Some o => permitted mn = false \/ has_source o = false \/ In o S
                  end
     end.
 
   Lemma handled_mono S S' i : incl S S' -> handled S i -> handled S' i.
   Proof.
     unfold handled. intros Hi H. destruct (module_of (snd i)) as [mn|]; [|exact I].
-    destruct (origin_of mn) as [o|]; [|exact I]. destruct H as [H|H]; [left; exact H|right; apply Hi; exact H].
+    destruct (origin_of mn) as [o|]; [|exact I]. destruct H as [H|[H|H]]; [left; exact H|right; left; exact H|right; right; apply Hi; exact H].
   Qed.
 
   (* completeness: at the end every import in the queue, and every import of every newly analysed module,
@@ -105,16 +109,19 @@ Section Proofs.
           intros i [<-|Hi]; [unfold handled; simpl; rewrite Em, Eo; exact I|apply H1; exact Hi]. }
       destruct (mem o seen) eqn:Es.
       { destruct (IH _ _ _ _ H Hs) as [H1 H2]. split; [|exact H2].
-        intros i [<-|Hi]; [|apply H1; exact Hi]. unfold handled; simpl; rewrite Em, Eo. right.
+        intros i [<-|Hi]; [|apply H1; exact Hi]. unfold handled; simpl; rewrite Em, Eo. right. right.
         apply mem_true_iff in Es. rewrite Hs in Es. apply in_map_iff in Es. destruct Es as (y & <- & Hy).
         apply in_map. eapply bfs_incl_acc; eauto. }
       destruct (permitted mn) eqn:Ep; simpl in H.
       2:{ destruct (IH _ _ _ _ H Hs) as [H1 H2]. split; [|exact H2].
           intros i [<-|Hi]; [unfold handled; simpl; rewrite Em, Eo; left; exact Ep|apply H1; exact Hi]. }
+      destruct (has_source o) eqn:Eh; simpl in H.
+      2:{ destruct (IH _ _ _ _ H Hs) as [H1 H2]. split; [|exact H2].
+          intros i [<-|Hi]; [unfold handled; simpl; rewrite Em, Eo; right; left; exact Eh|apply H1; exact Hi]. }
       assert (Hs' : o :: seen = map snd ((mn, o) :: acc)) by (simpl; f_equal; exact Hs).
       destruct (IH _ _ _ _ H Hs') as [H1 H2]. split.
       + intros i [<-|Hi]; [|apply H1; apply in_or_app; left; exact Hi].
-        unfold handled; simpl; rewrite Em, Eo. right.
+        unfold handled; simpl; rewrite Em, Eo. right. right.
         change o with (snd (mn, o)). apply in_map. eapply bfs_incl_acc; [exact H|left; reflexivity].
       + intros x Hx. destruct (H2 x Hx) as [[<-|Hin]|Hall]; [|left; exact Hin|right; exact Hall].
         right. intros i Hi. apply H1. apply in_or_app. right. exact Hi.
@@ -158,12 +165,13 @@ Section Proofs.
   Qed.
 
   (* functions of modules that were not analysed, or are not permitted, contribute nothing *)
-  Theorem resolved_only_in_analysed_permitted fuel irs : forall tn tq mn ln c,
-    resolve_import fuel irs tn tq = RTarget mn ln c ->
+  Theorem resolved_only_in_analysed_permitted fuel irs : forall vis tn tq mn ln c,
+    resolve_import fuel irs vis tn tq = RTarget mn ln c ->
     (exists m, In m irs /\ m_name m = mn /\ In ln (m_ir m)) /\ permitted mn = true /\ follow_local = true.
   Proof.
-    induction fuel as [|f IH]; intros tn tq mn ln c H; simpl in H; [discriminate|].
+    induction fuel as [|f IH]; intros vis tn tq mn ln c H; simpl in H; [discriminate|].
     destruct (module_of tq) as [mn0|]; [|discriminate].
+    destruct (mem tq vis); [discriminate|].
     destruct (blacklisted mn0) eqn:Eb; [discriminate|].
     destruct follow_local eqn:Efl; simpl in H; [|discriminate].
     destruct (negb follow_pip && in_pip mn0) eqn:Ep; [discriminate|].
@@ -178,69 +186,74 @@ Section Proofs.
       split; [|split; [exact Hperm|reflexivity]]. exists m. repeat split; auto. apply mem_true_iff. exact Em.
     - destruct (mem (local_name tn mn0) (m_ir m)) eqn:Em; [|discriminate]. injection H as <- <- <-.
       split; [|split; [exact Hperm|reflexivity]]. exists m. repeat split; auto. apply mem_true_iff. exact Em.
-    - destruct (IH _ _ _ _ _ H) as (H1 & H2 & H3). split; [exact H1|split; [exact H2|reflexivity]].
+    - destruct (IH _ _ _ _ _ _ H) as (H1 & H2 & H3). split; [exact H1|split; [exact H2|reflexivity]].
   Qed.
 
   (* one step: the module is analysed and permitted, so the resolver looks the local name up there *)
   Definition reaches (irs : list modl) (tq : string) (m : modl) : Prop :=
     module_of tq = Some (m_name m) /\ find_mod irs (m_name m) = Some m /\ permitted (m_name m) = true.
 
-  Lemma resolve_step f irs tn tq m :
-    follow_local = true -> reaches irs tq m ->
-    resolve_import (S f) irs tn tq =
+  Lemma resolve_step f irs vis tn tq m :
+    follow_local = true -> reaches irs tq m -> mem tq vis = false ->
+    resolve_import (S f) irs vis tn tq =
       match clookup (m_ctx m) (local_name tn (m_name m)) with
       | Some MFunc => if mem (local_name tn (m_name m)) (m_ir m) then RTarget (m_name m) (local_name tn (m_name m)) false else RNone
       | Some MClass => if mem (local_name tn (m_name m)) (m_ir m) then RTarget (m_name m) (local_name tn (m_name m)) true else RNone
-      | Some (MImport n q) => resolve_import f irs n q
+      | Some (MImport n q) => resolve_import f irs (tq :: vis) n q
       | _ => RNone
       end.
   Proof.
-    intros Hfl (Hm & Hf & Hp). simpl. rewrite Hm, Hfl. unfold Imports.permitted in Hp.
+    intros Hfl (Hm & Hf & Hp) Hv. simpl. rewrite Hm, Hv, Hfl. unfold Imports.permitted in Hp.
     destruct (blacklisted (m_name m)); [discriminate|]. simpl in *.
     destruct follow_pip, follow_stdlib, (in_pip (m_name m)), (in_stdlib (m_name m)); simpl in *; try discriminate; rewrite Hf; reflexivity.
   Qed.
 
   (* a chain of re-exports: each module on the way binds the (local) name to a further import; the last one
      defines the function.  Any length. *)
-  Inductive chain (irs : list modl) : string -> string -> string -> string -> bool -> Prop :=
-  | chain_def (tn tq : string) (m : modl) (c : bool) :
-      reaches irs tq m ->
+  Inductive chain (irs : list modl) : list string -> string -> string -> string -> string -> bool -> Prop :=
+  | chain_def (vis : list string) (tn tq : string) (m : modl) (c : bool) :
+      reaches irs tq m -> mem tq vis = false ->
       clookup (m_ctx m) (local_name tn (m_name m)) = Some (if c then MClass else MFunc) ->
       In (local_name tn (m_name m)) (m_ir m) ->
-      chain irs tn tq (m_name m) (local_name tn (m_name m)) c
-  | chain_reexport (tn tq : string) (m : modl) (n q mn ln : string) (c : bool) :
-      reaches irs tq m ->
+      chain irs vis tn tq (m_name m) (local_name tn (m_name m)) c
+  | chain_reexport (vis : list string) (tn tq : string) (m : modl) (n q mn ln : string) (c : bool) :
+      reaches irs tq m -> mem tq vis = false ->          (* no name is re-exported twice on the way: the chain is not a cycle *)
       clookup (m_ctx m) (local_name tn (m_name m)) = Some (MImport n q) ->
-      chain irs n q mn ln c ->
-      chain irs tn tq mn ln c.
+      chain irs (tq :: vis) n q mn ln c ->
+      chain irs vis tn tq mn ln c.
 
-  Theorem resolve_follows_chain irs tn tq mn ln c :
-    follow_local = true -> chain irs tn tq mn ln c ->
-    exists n, forall fuel, n <= fuel -> resolve_import fuel irs tn tq = RTarget mn ln c.
+  Theorem resolve_follows_chain irs vis tn tq mn ln c :
+    follow_local = true -> chain irs vis tn tq mn ln c ->
+    exists n, forall fuel, n <= fuel -> resolve_import fuel irs vis tn tq = RTarget mn ln c.
   Proof.
-    intros Hfl H. induction H as [tn tq m c Hr Hl Hin|tn tq m n q mn ln c Hr Hl _ IH].
-    - exists 1. intros [|f] Hle; [lia|]. rewrite (resolve_step f irs tn tq m Hfl Hr), Hl.
+    intros Hfl H. induction H as [vis tn tq m c Hr Hv Hl Hin|vis tn tq m n q mn ln c Hr Hv Hl _ IH].
+    - exists 1. intros [|f] Hle; [lia|]. rewrite (resolve_step f irs vis tn tq m Hfl Hr Hv), Hl.
       apply mem_true_iff in Hin. destruct c; rewrite Hin; reflexivity.
     - destruct IH as (k & Hk). exists (S k). intros [|f] Hle; [lia|].
-      rewrite (resolve_step f irs tn tq m Hfl Hr), Hl. apply Hk. lia.
+      rewrite (resolve_step f irs vis tn tq m Hfl Hr Hv), Hl. apply Hk. lia.
   Qed.
+
+  (* a name re-exported in a cycle is cut: the second visit of a qualified name answers "nothing" *)
+  Theorem revisited_name_resolves_to_nothing f irs vis tn tq mn :
+    module_of tq = Some mn -> mem tq vis = true -> resolve_import (S f) irs vis tn tq = RNone.
+  Proof. intros Hm Hv. simpl. rewrite Hm, Hv. reflexivity. Qed.
 End Proofs.
 
 (* ================= linking: an imported call expands exactly like a local call to the definition ================= *)
 Lemma link_import_like_local module_of bl pip std fl fp fs fuel irs owner excluded E c nm q mn ln :
   c_target c = Some (mkSym nm (KImport q)) ->
-  resolve_import module_of bl pip std fl fp fs fuel irs nm q = RTarget mn ln false ->
+  resolve_import module_of bl pip std fl fp fs fuel irs [] nm q = RTarget mn ln false ->
   resolve excluded E (link_call module_of bl pip std fl fp fs fuel irs owner c)
   = resolve excluded E (mkCallRec (c_name c) (c_args c) (c_kw c) (Some (mkSym (qid mn ln) KFunc))).
 Proof. intros Ht Hr. unfold link_call, link_target. rewrite Ht, Hr. reflexivity. Qed.
 
 Lemma link_unresolved_contributes_nothing module_of bl pip std fl fp fs fuel irs owner excluded E c nm q :
   c_target c = Some (mkSym nm (KImport q)) ->
-  (forall mn ln k, resolve_import module_of bl pip std fl fp fs fuel irs nm q <> RTarget mn ln k) ->
+  (forall mn ln k, resolve_import module_of bl pip std fl fp fs fuel irs [] nm q <> RTarget mn ln k) ->
   resolve excluded E (link_call module_of bl pip std fl fp fs fuel irs owner c) = None.
 Proof.
   intros Ht Hr. unfold link_call, link_target, resolve. rewrite Ht. simpl.
-  destruct (resolve_import module_of bl pip std fl fp fs fuel irs nm q) as [mn ln [|]| | |] eqn:E0; try reflexivity;
+  destruct (resolve_import module_of bl pip std fl fp fs fuel irs [] nm q) as [mn ln [|]| | |] eqn:E0; try reflexivity;
     exfalso; eapply Hr; reflexivity.
 Qed.
 
@@ -252,30 +265,21 @@ Definition ex_m : modl := mkMod "m" [("f", MFunc)] ["f"].
 
 (* `from m import f` resolves; `from m import f as g` does not: the lookup uses the alias (finding KF_C06_1) *)
 Lemma plain_from_import_resolves :
-  resolve_import ex_locator no no no true false false 3 [ex_m] "f" "m.f" = RTarget "m" "f" false.
+  resolve_import ex_locator no no no true false false 3 [ex_m] [] "f" "m.f" = RTarget "m" "f" false.
 Proof. reflexivity. Qed.
 Lemma aliased_from_import_refuted :
-  resolve_import ex_locator no no no true false false 3 [ex_m] "g" "m.f" = RNone.
+  resolve_import ex_locator no no no true false false 3 [ex_m] [] "g" "m.f" = RNone.
 Proof. reflexivity. Qed.
 
-(* a re-export cycle (a: from b import f; b: from a import f) never ends: whatever the fuel, the model
-   runs out of it - rattr's recursion has no guard (finding KF_C06_4 / C07) *)
+(* a re-export cycle (a: from b import f; b: from a import f) is cut at the second visit of a.f: with any
+   fuel >= 3 the answer is "nothing" (after fix 99a8b20; before it the recursion had no guard) *)
 Definition cyc : list modl := [mkMod "a" [("f", MImport "f" "b.f")] []; mkMod "b" [("f", MImport "f" "a.f")] []].
-Lemma reexport_cycle_refuted : forall fuel, resolve_import ex_locator no no no true false false fuel cyc "f" "a.f" = RFuel.
-Proof.
-  assert (H : forall fuel, resolve_import ex_locator no no no true false false fuel cyc "f" "a.f" = RFuel
-                           /\ resolve_import ex_locator no no no true false false fuel cyc "f" "b.f" = RFuel).
-  { induction fuel as [|f [IHa IHb]]; [split; reflexivity|]. split.
-    - change (resolve_import ex_locator no no no true false false (S f) cyc "f" "a.f")
-        with (resolve_import ex_locator no no no true false false f cyc "f" "b.f"). exact IHb.
-    - change (resolve_import ex_locator no no no true false false (S f) cyc "f" "b.f")
-        with (resolve_import ex_locator no no no true false false f cyc "f" "a.f"). exact IHa. }
-  intros fuel. apply H.
-Qed.
+Lemma reexport_cycle_terminates : forall fuel, 3 <= fuel -> resolve_import ex_locator no no no true false false fuel cyc [] "f" "a.f" = RNone.
+Proof. intros [|[|[|f]]] H; try lia. reflexivity. Qed.
 
 (* a chain of length two as an instance of the general theorem's premises *)
 Definition ch : list modl := [mkMod "a" [("f", MImport "f" "m.f")] []; ex_m].
-Example chain_example : resolve_import ex_locator no no no true false false 5 ch "f" "a.f" = RTarget "m" "f" false.
+Example chain_example : resolve_import ex_locator no no no true false false 5 ch [] "f" "a.f" = RTarget "m" "f" false.
 Proof. reflexivity. Qed.
 
 (* ================= termination of the import BFS =================
@@ -287,12 +291,13 @@ Section Termination.
   Variable blacklisted in_pip in_stdlib : string -> bool.
   Variable follow_pip follow_stdlib : bool.
   Variable imports_in : string -> list (string * string).
+  Variable has_source : string -> bool.
   Variable U : list string.
   Variable B : nat.
   Hypothesis origins_in_U : forall q mn o, module_of q = Some mn -> origin_of mn = Some o -> In o U.
   Hypothesis imports_bounded : forall o, List.length (imports_in o) <= B.
 
-  Notation bfs := (bfs module_of origin_of blacklisted in_pip in_stdlib follow_pip follow_stdlib imports_in).
+  Notation bfs := (bfs module_of origin_of blacklisted in_pip in_stdlib follow_pip follow_stdlib imports_in has_source).
 
   Definition unseen (seen : list string) : nat := List.length (filter (fun o => negb (mem o seen)) U).
 
@@ -329,7 +334,52 @@ Section Termination.
     destruct (origin_of mn) as [o|] eqn:Eo; [|apply IH; lia].
     destruct (mem o seen) eqn:Es; [apply IH; lia|].
     destruct (permitted blacklisted in_pip in_stdlib follow_pip follow_stdlib mn); simpl; [|apply IH; lia].
+    destruct (has_source o); simpl; [|apply IH; lia].
     apply IH. rewrite app_length. pose proof (imports_bounded o) as Hb.
     pose proof (unseen_decreases o seen (origins_in_U _ _ _ Em Eo) Es) as Hd. nia.
   Qed.
 End Termination.
+
+(* ================= termination of the resolver =================
+   With the visited set, resolve_import ends within (number of not yet visited qualified names) + 1 steps:
+   the fuel is never the reason for stopping - for every environment, re-export cycles included. *)
+Section ResolverTermination.
+  Variable module_of : string -> option string.
+  Variable blacklisted in_pip in_stdlib : string -> bool.
+  Variable follow_local follow_pip follow_stdlib : bool.
+  Variable irs : list modl.
+  Variable Q : list string.             (* the qualified names of all import symbols of the environment *)
+  Hypothesis ctx_imports_in_Q :
+    forall m ln n q, In m irs -> clookup (m_ctx m) ln = Some (MImport n q) -> In q Q.
+
+  Notation resolve_import := (resolve_import module_of blacklisted in_pip in_stdlib follow_local follow_pip follow_stdlib).
+
+  Definition unvisited (vis : list string) : nat := List.length (filter (fun q => negb (mem q vis)) Q).
+
+  Lemma unvisited_decreases q vis : In q Q -> mem q vis = false -> unvisited (q :: vis) < unvisited vis.
+  Proof.
+    intros Hin Hm. unfold unvisited. apply (filter_len_lt Q _ _ q); auto.
+    - intros x Hx. simpl in Hx. destruct (String.eqb x q); [discriminate|exact Hx].
+    - rewrite Hm. reflexivity.
+    - simpl. rewrite String.eqb_refl. reflexivity.
+  Qed.
+
+  Theorem resolve_never_out_of_fuel fuel : forall vis tn tq,
+    In tq Q -> unvisited vis + 1 <= fuel -> resolve_import fuel irs vis tn tq <> RFuel.
+  Proof.
+    induction fuel as [|f IH]; intros vis tn tq Hq Hf; [lia|]. simpl.
+    destruct (module_of tq) as [mn|]; [|discriminate].
+    destruct (mem tq vis) eqn:Ev; [discriminate|].
+    destruct (blacklisted mn); [discriminate|].
+    destruct (negb follow_local); [discriminate|].
+    destruct (negb follow_pip && in_pip mn); [discriminate|].
+    destruct (negb follow_stdlib && in_stdlib mn); [discriminate|].
+    destruct (find_mod irs mn) as [m|] eqn:Ef; [|discriminate].
+    destruct (clookup (m_ctx m) (local_name tn mn)) as [[| |n q|]|] eqn:El; try discriminate.
+    - destruct (mem (local_name tn mn) (m_ir m)); intro Hx; discriminate Hx.
+    - destruct (mem (local_name tn mn) (m_ir m)); intro Hx; discriminate Hx.
+    - apply IH.
+      + eapply ctx_imports_in_Q; [|exact El]. destruct (find_mod_name _ _ _ Ef) as [_ Hin]. exact Hin.
+      + pose proof (unvisited_decreases tq vis Hq Ev). lia.
+  Qed.
+End ResolverTermination.
